@@ -145,6 +145,22 @@ CLAIMED = {
             "over the action contracts; real multi-process stress is outside this technique; the polling provider (no conditional "
             "writes) is excluded by the property itself.",
             "DESIGN.md 4/C19"),
+    "C06": ("Rely/guarantee decomposition, each side proved per function: (GUAR-tx) Transaction._register_inflight, append_data and "
+            "FileManager.create_manifest_file/create_manifest_list_file write the marker before the file it protects (g1, event order "
+            "on every path incl. fault edges); Transaction.commit touches storage only through _commit_file_ops/_finish_committed/"
+            "_rollback and carries markers and written files unchanged into every retry attempt (loop invariant), _finish_committed "
+            "removes markers only after the commit point, _rollback removes only own files and markers (g2); (GC-RG) "
+            "GarbageCollector.collect observes the markers no later than the metadata read that feeds reachability, passes the union "
+            "of reachable and protected sets to both delete passes, sweeps abandoned markers only after reachability succeeded; "
+            "_load_inflight_protection puts every fresh listed marker's target into the protection set and deletes nothing. "
+            "The read-order obligation was refuted on the pinned tree (stale metadata + already-removed marker => committed file "
+            "deleted), reproduced natively and repaired in /repo (84ee3f9). The step from these contracts to 'no interleaving "
+            "deletes a referenced file' is lemma STABLE, a stated meta-argument; the interleavings themselves are not enumerated.",
+            "Trusted: lemma STABLE and A-clock (grace period exceeds the run; collector and writers agree on mtimes; transactions "
+            "older than the 24 h abandonment timeout are out of scope), T-store, T-codec. Bounded stand-in shipped as replay (not "
+            "counted as proved): one writer commit/rollback scheduled before each of the collector's storage operations; collector "
+            "run inside a writer's conflict back-off.",
+            "DESIGN.md 4/C06"),
     "C16": ("Proof over the trace of T-os calls issued by the real code: LocalStorageBackend.write_file writes the whole content to a "
             "temp file in the target's directory, fsyncs it after the last write and before os.replace, fsyncs the directory after, and "
             "an exception implies the rename did not happen; DataFileWriter.open/close do the same for parquet files (fsync of the "
